@@ -704,7 +704,9 @@ def forge_cases(rng: random.Random) -> dict:
     a = ['snd', 'forged', 'wav']
     b = ['', 'plain', '']
     ops = [['open', 'w', limit],
-           ['add', a, 0, rng.randint(0, 40), rng.randrange(1 << 30), rng.choice(ARCH), 'forge'],   # CRC32 == CRC32(b'')
+           # CRC32 == CRC32(b''); a numbered archive is requested so that an empty read-back cannot be mistaken
+           # for the directory-tail placement
+           ['add', a, 0, rng.randint(0, 40), rng.randrange(1 << 30), rng.choice((0, 1, 2)), 'forge'],
            ['add', b, 2, rng.randint(1, 3000), rng.randrange(1 << 30), rng.choice(ARCH)],
            ['flush', 0],
            ['over', b, 1, rng.randint(0, 3000), rng.randrange(1 << 30), rng.choice(ARCH), 'forge'],  # same CRC as stored
@@ -743,7 +745,7 @@ def main(run, shard=(0, 1)) -> None:
         for j in range(n_forge):
             if mine(j, shard):
                 run_case(run, regen(run, 'forge', j), 'forge', base, sample=j == 0)
-        n = 250000 if thorough else 8000
+        n = 250000 if thorough else 6000
         for i in range(n):
             if not mine(i, shard):
                 continue
